@@ -300,17 +300,17 @@ Proof.
     apply c11_knn_spec.
 Qed.
 
-Lemma c11_query_radius_spec : forall num T t g kd s m q rad r res,
-  c11_query_radius num T t g kd s m q rad r = Some res ->
+Lemma c11_query_radius_spec : forall num T pi t g kd s m q rad r res,
+  c11_query_radius num T pi t g kd s m q rad r = Some res ->
   0 <= r /\
   exists pq, c11_prepare num T s m q rad = Some pq /\ length res = length pq /\
     forall i p l, nth_error pq i = Some p -> nth_error res i = Some l ->
       NoDup (map snd l) /\
       forall d j, In (d, j) l <->
         nth_error (c11_keys m (c11_tree_coords num g kd s) p) j = Some d
-        /\ d <= c11_rkey m (c11_radius_units num T t s r).
+        /\ d <= c11_rkey m (c11_radius_units num T pi t s r).
 Proof.
-  intros num T t g kd s m q rad r res H. unfold c11_query_radius in H.
+  intros num T pi t g kd s m q rad r res H. unfold c11_query_radius in H.
   destruct (r <? 0) eqn:Hr; [discriminate|].
   destruct (c11_prepare num T s m q rad) as [pq|] eqn:Hp; [|discriminate].
   inversion H; subst; clear H. split; [lia|].
@@ -338,6 +338,11 @@ Proof.
     + intros j d H. unfold c11_keys in H. apply nth_error_In, in_map_iff in H.
       destruct H as [x [<- _]]. apply c11_key_nonneg.
 Qed.
+
+(* the great-circle radius is read in degrees and clamped at the half turn *)
+Lemma c11_radius_units_ball_spherical : forall num T pi r,
+  c11_radius_units num T pi C11Ball C11Spherical r = Z.min (c11_deg2rad num r) pi.
+Proof. reflexivity. Qed.
 
 (* ------------------------------------------------------------------------------------------ *)
 (* squeeze logic / units                                                                      *)
@@ -584,7 +589,7 @@ Example c11_query_nonvacuous :
 Proof. vm_compute. reflexivity. Qed.
 
 Example c11_query_radius_nonvacuous :
-  c11_query_radius 3 2 C11KD c11_ex_grid C11Faces C11Cartesian C11L1 [[1; 0; 0]] false 1
+  c11_query_radius 3 2 13 C11KD c11_ex_grid C11Faces C11Cartesian C11L1 [[1; 0; 0]] false 1
   = Some [[(0, 0%nat)]].
 Proof. vm_compute. reflexivity. Qed.
 
@@ -699,4 +704,11 @@ Proof.
   intros c1 c2 H1 H2. pose proof (c11_chord_arc c2 c1 H2 H1) as [A B]. split; intros H.
   - destruct (Rle_lt_dec (c11_arc c1) (c11_arc c2)); auto. apply B in r. lra.
   - destruct (Rle_lt_dec c1 c2); auto. apply A in r. lra.
+Qed.
+
+(* clamping a great-circle radius at the half turn changes no answer: no arc exceeds PI *)
+Lemma c11_radius_clamp : forall c r, 0 <= c <= 2 -> (c11_arc c <= r <-> c11_arc c <= Rmin r PI).
+Proof.
+  intros c r H. destruct (c11_arc_angle c H) as [[_ Hle] _]. unfold Rmin.
+  destruct (Rle_dec r PI); split; intros; lra.
 Qed.
